@@ -17,6 +17,7 @@ from sim.runner import GlobalStateMonitor
 from . import common, sampling
 
 PROPERTY = "C10"
+MIX_PRIORS = True  # workers are NOT dealt seeds by prior: process-global state across priors is in scope
 
 
 def generate(seed, tier="quick"):
@@ -287,6 +288,10 @@ def run(program):
                 ec[kk] = ec.get(kk, 0) + n
         res["event_counts"] = ec
         res["digest"] = tape.digest_obj([depA.log.digest(), depB.log.digest(), depC.log.digest()])
+        from sim.executor import _digestable
+
+        res["op_out_digests"] = [tape.digest_obj(_digestable(r["out"]) if r["raised"] is None else {"raised": r["raised"][-1][0]}) for r in outsA]
+        res["plan_digest"] = tape.digest_obj([program["config"], program["ops"], res["schedule"]])
         stats = {}
         distinct = set()
         for dep in (depA, depB):
